@@ -72,15 +72,17 @@ func c14Frames(c *ev.Ctx) {
 							cls = "concurrency level"
 						}
 						k := c14Case{Kind: "frames", A: *refItem, B: it}
-						c.Confirm(&ev.Finding{Sig: fmt.Sprintf("frame bytes depend on the %s (%s); legacy=%v", cls, what, o.Legacy),
-							What: fmt.Sprintf("%s; %+v vs %+v", describeDiff(frame, *ref), *refItem, it), Case: k}, func() *ev.Finding {
-							a, e1 := produceFrame(k.A.Opts, input, k.A.Deliv)
-							b, e2 := produceFrame(k.B.Opts, input, k.B.Deliv)
-							if e1 == nil && e2 == nil && !bytes.Equal(a, b) {
-								return &ev.Finding{Sig: fmt.Sprintf("frame bytes depend on the %s (%s); legacy=%v", cls, what, o.Legacy)}
-							}
-							return nil
-						})
+						// Two frames for the same stream and options differ: that observation is the
+						// violation whether or not it reproduces (a history-dependent difference is
+						// exactly what the property forbids), so it is reported without re-execution.
+						a2, e1 := produceFrame(k.A.Opts, input, k.A.Deliv)
+						b2, e2 := produceFrame(k.B.Opts, input, k.B.Deliv)
+						repro := e1 == nil && e2 == nil && bytes.Equal(a2, *ref) && bytes.Equal(b2, frame)
+						sig := fmt.Sprintf("frame bytes depend on the %s (%s); legacy=%v", cls, what, o.Legacy)
+						if !repro {
+							sig = fmt.Sprintf("frame bytes for the same stream and options are not reproducible (depend on what was compressed before); legacy=%v", o.Legacy)
+						}
+						c.Report(&ev.Finding{Sig: sig, What: fmt.Sprintf("%s; %+v vs %+v", describeDiff(frame, *ref), *refItem, it), Case: k})
 					}
 				}
 			}
